@@ -55,7 +55,7 @@ pub struct Flow<B, State> {
 #[derive(Debug)]
 pub(crate) struct Inner<B> {
     pub call: CallHolder<B>,
-    pub close_reason: ArrayVec<CloseReason, 4>,
+    pub close_reason: ArrayVec<CloseReason, 5>,
     pub should_send_body: bool,
     pub await_100_continue: bool,
     pub status: Option<StatusCode>,
@@ -63,6 +63,15 @@ pub(crate) struct Inner<B> {
 }
 
 impl<B> Inner<B> {
+    /// Record a reason for closing the connection.
+    ///
+    /// Each reason is recorded at most once. The list has room for all reasons.
+    fn add_close_reason(&mut self, reason: CloseReason) {
+        if !self.close_reason.contains(&reason) {
+            self.close_reason.push(reason);
+        }
+    }
+
     fn is_redirect(&self) -> bool {
         match self.status {
             // 304 is a redirect code, but it has no location header and
@@ -387,7 +396,7 @@ impl<B> Flow<B, Await100> {
                         // so we should not continue to send the body. Furthermore we mustn't
                         // reuse the connection.
                         // https://curl.se/mail/lib-2004-08/0002.html
-                        self.inner.close_reason.push(CloseReason::Not100Continue);
+                        self.inner.add_close_reason(CloseReason::Not100Continue);
                         self.inner.should_send_body = false;
                         Ok(0)
                     }
@@ -406,7 +415,7 @@ impl<B> Flow<B, Await100> {
                     //
                     // We do however want to receive the response to be able to provide
                     // the Response<()> to the user. Hence this is not considered an error.
-                    self.inner.close_reason.push(CloseReason::Not100Continue);
+                    self.inner.add_close_reason(CloseReason::Not100Continue);
                     self.inner.should_send_body = false;
                     Ok(0)
                 } else {
@@ -597,8 +606,7 @@ impl<B> Flow<B, RecvResponse> {
 
         if response.headers().iter().has("connection", "close") {
             self.inner
-                .close_reason
-                .push(CloseReason::ServerConnectionClose);
+                .add_close_reason(CloseReason::ServerConnectionClose);
         }
 
         Ok((input_used, Some(response)))
